@@ -52,7 +52,11 @@ func c13Collect(w *W, a, b mangos.Socket, laddr string, lopts, dopts map[string]
 		w.Failf("HARNESS/dial", "%v", err)
 		return
 	}
-	for i := 0; i < 500 && (lp == nil || dp == nil); i++ {
+	tries := 500
+	if w.Real {
+		tries = 30000 // wall clock on a possibly loaded machine
+	}
+	for i := 0; i < tries && (lp == nil || dp == nil); i++ {
 		select {
 		case x := <-got:
 			simrt.Yield()
